@@ -183,10 +183,12 @@ class Hist:
         if p is None:
             p = self.fresh(True)
         self.walk(p, wit)
-        ok, s_start = ctx.guard("history:snapshot-raised:at-the-start", wit, snap, p, ms)
-        if ok and s_start != S_on:
-            ctx.violate("history:differs-from-fresh:at-the-start", diff_keys(S_on, s_start), wit)
-            return
+        if wit.get("first_parse_of_the_object_was_abandoned"):
+            # (only then: a snapshot at the start asks every per-mother question once, which would hide a look-up table built at the first question)
+            ok, s_start = ctx.guard("history:snapshot-raised:at-the-start", wit, snap, p, ms)
+            if ok and s_start != S_on:
+                ctx.violate("history:differs-from-fresh:at-the-start", diff_keys(S_on, s_start), wit)
+                return
         mode_on = True
         S_off = None
         last = None
@@ -281,6 +283,14 @@ class Hist:
                         s_mid = snap(p, ms)
                         if s_mid != S_off:
                             ctx.violate("history:differs-from-fresh:after-parse(include_ccdecays=False)", diff_keys(S_off, s_mid), {**wit, "step": i})
+                        # the names that only the conjugated tables carried are gone: asked for, they are not found
+                        gone = [x for x in ms if x not in set(p.list_decay_mother_names())]
+                        for x in gone[:3]:
+                            try:
+                                still = p.list_decay_modes(x)
+                            except Exception:  # noqa: BLE001, S112
+                                continue
+                            ctx.violate("history:table-still-answered-after-parse(include_ccdecays=False)", f"list_decay_modes({x!r}) = {still!r} although {x} is no longer among the mothers", {**wit, "step": i})
                         p.parse()
                         self.walk(p, wit)
             except Exception as e:  # noqa: BLE001
